@@ -1,5 +1,5 @@
 import itertools
-from harness.common import Prop, canon, use_repo_src
+from harness.common import Prop, canon, use_repo_src, scale
 from harness import gen_models as M
 from harness.gen_text import err_tag
 
@@ -24,7 +24,7 @@ class C14(Prop):
                   'identifier candidate with a separator; distinct = distinct case')
 
     def streams(self, rng, tier):
-        n = 500 if tier == 'quick' else 20000
+        n = 500 if tier == 'quick' else scale(80000)
         A = M.NAMES3
         sro = []
         for ln in range(0, 4):
